@@ -17,19 +17,20 @@ import (
 
 // round5Rules: which of the rules of this file each property runs after its own.
 var round5Rules = map[string][]func(*report.Ctx){
-	"C01": {checkProxyWriteKeepsBody, checkNoServerTimeouts, checkCustomerHeadersEncoding},
+	"C01": {checkFrontEndOutcomes, checkProxyWriteKeepsBody, checkNoServerTimeouts, checkCustomerHeadersEncoding},
 	"C04": {checkSuspendConsumesRelease, checkCountAgentsCountsBoth},
-	"C05": {checkCancelFlowsUnconditional, checkTeardownEntryPointsUnconditional, checkTimeoutArmAlwaysResets, checkNoServerTimeouts},
-	"C06": {checkCancelFlowsUnconditional, checkInitFailuresClosed, checkAppCtxMiddlewareOnRouters, checkContextClearedOnlyByReset, checkSingleEventSender, checkErrorResponseTypeVerbatim, checkBootstrapFallbackTypes, checkRuntimeLookedUpAfterSuccess},
+	"C05": {checkFrontEndOutcomes, checkCancelFlowsUnconditional, checkTeardownEntryPointsUnconditional, checkTimeoutArmAlwaysResets, checkNoServerTimeouts},
+	"C06": {checkFrontEndOutcomes, checkCancelFlowsUnconditional, checkInitFailuresClosed, checkAppCtxMiddlewareOnRouters, checkContextClearedOnlyByReset, checkSingleEventSender, checkErrorResponseTypeVerbatim, checkBootstrapFallbackTypes, checkRuntimeLookedUpAfterSuccess},
 	"C19": {checkSingleEventSender},
 	"C15": {checkBootstrapFallbackTypes, checkLaunchErrorVerbatim, checkAgentAutomataTruthful},
-	"C07": {checkCancelFlowsUnconditional, checkInitFailuresClosed, checkTeardownEntryPointsUnconditional, checkSingleEventSender, checkRuntimeLookedUpAfterSuccess},
+	"C07": {checkFrontEndOutcomes, checkCancelFlowsUnconditional, checkInitFailuresClosed, checkTeardownEntryPointsUnconditional, checkSingleEventSender, checkRuntimeLookedUpAfterSuccess},
 	"C08": {checkExitChannelAfterExec, checkTeardownEntryPointsUnconditional, checkHandlerClosuresStateless},
 	"C20": {checkHandlerClosuresStateless, checkCropOwnLength},
 	"C09": {checkAgentReleaseUnconditional, checkSuspendConsumesRelease, checkTeardownEntryPointsUnconditional, checkDeadlineUnit, checkShutdownFuncOrder, checkCountAgentsCountsBoth},
-	"C12": {checkCurrentInvokeIDTruthful, checkAppCtxMiddlewareOnRouters, checkJSONReplyBufferOwned},
+	"C12": {checkHandlersReplyOnce, checkCurrentInvokeIDTruthful, checkAppCtxMiddlewareOnRouters, checkJSONReplyBufferOwned},
 	"C02": {checkCurrentInvokeIDTruthful},
-	"C13": {checkSuspendConsumesRelease, checkExtensionsFlagOn, checkAppCtxMiddlewareOnRouters, checkJSONReplyBufferOwned, checkEmulatorInitCopy},
+	"C10": {checkFrontEndOutcomes},
+	"C13": {checkHandlersReplyOnce, checkSuspendConsumesRelease, checkExtensionsFlagOn, checkAppCtxMiddlewareOnRouters, checkJSONReplyBufferOwned, checkEmulatorInitCopy},
 	"C03": {checkExtensionsFlagOn, checkAgentListing},
 	"C14": {checkProxyWriteKeepsBody, checkBufferedDirectOversize},
 	"C17": {checkCustomerHeadersEncoding, checkBufferedDirectOversize, checkStreamingModeOverride, checkBucketAcceptsValidCombinations, checkMetricsNeverNil, checkRefillAlwaysAnnounced},
@@ -1492,4 +1493,318 @@ func checkAgentAutomataTruthful(c *report.Ctx) {
 		m := extractFSM(c, spec)
 		checkFSM(c, spec, m)
 	}
+}
+
+// tableRowsOf: v is a field read off an element (at a non-constant index) of a local array/slice literal of
+// structs; returns the field's name and the literal's rows, each a map from field name to the value stored.
+func tableRowsOf(v ssa.Value) (field string, rows []map[string]ssa.Value) {
+	var elem ssa.Value
+	switch x := v.(type) {
+	case *ssa.UnOp: // *(&elem.f)
+		if fa, ok := x.X.(*ssa.FieldAddr); ok && x.Op == token.MUL {
+			if fr, k := an.AsField(fa); k {
+				field, elem = fr.Field, fa.X
+			}
+		}
+	case *ssa.Field: // (elem value).f
+		if fr, k := an.AsField(x); k {
+			field, elem = fr.Field, x.X
+		}
+	}
+	if elem == nil {
+		return "", nil
+	}
+	// the loop variable of `for _, h := range table`: a local copy of the element
+	if al, ok := elem.(*ssa.Alloc); ok {
+		var src ssa.Value
+		n := 0
+		for _, r := range *al.Referrers() {
+			if st, ok := r.(*ssa.Store); ok && st.Addr == ssa.Value(al) {
+				n++
+				src = st.Val
+			}
+		}
+		if n == 1 {
+			elem = src
+		}
+	}
+	var base ssa.Value
+	switch e := elem.(type) {
+	case *ssa.IndexAddr:
+		base = e.X
+	case *ssa.UnOp:
+		if ia, ok := e.X.(*ssa.IndexAddr); ok && e.Op == token.MUL {
+			base = ia.X
+		}
+	case *ssa.Index:
+		if ld, ok := e.X.(*ssa.UnOp); ok && ld.Op == token.MUL {
+			base = ld.X
+		}
+	}
+	if sl, ok := base.(*ssa.Slice); ok {
+		base = sl.X
+	}
+	arr, ok := base.(*ssa.Alloc)
+	if !ok {
+		return "", nil
+	}
+	for _, r := range *arr.Referrers() {
+		ea, ok := r.(*ssa.IndexAddr)
+		if !ok {
+			continue
+		}
+		if _, constIdx := ea.Index.(*ssa.Const); !constIdx {
+			continue
+		}
+		row := map[string]ssa.Value{}
+		for _, r2 := range *ea.Referrers() {
+			fa, ok := r2.(*ssa.FieldAddr)
+			if !ok {
+				continue
+			}
+			fr, k := an.AsField(fa)
+			if !k {
+				continue
+			}
+			for _, r3 := range *fa.Referrers() {
+				if st, ok := r3.(*ssa.Store); ok && st.Addr == ssa.Value(fa) {
+					row[fr.Field] = st.Val
+				}
+			}
+		}
+		if len(row) > 0 {
+			rows = append(rows, row)
+		}
+	}
+	return field, rows
+}
+
+// checkHandlersReplyOnce: every Runtime/Extensions API handler answers each request on every path, and answers a
+// second time only when the first answer reported that it could not be written (a call that is accepted or refused
+// without an answer leaves the client hanging; two answers corrupt the stream). An answer is WriteHeader/Write on
+// the ResponseWriter, http.Error, a Render* function of the rendering package, the rendering service, or a helper
+// of the handler package that does one of these.
+func checkHandlersReplyOnce(c *report.Ctx) {
+	direct := func(call ssa.CallInstruction) bool {
+		cc := call.Common()
+		if cc.IsInvoke() {
+			if strings.HasSuffix(cc.Value.Type().String(), "http.ResponseWriter") && oneOf(cc.Method.Name(), "WriteHeader", "Write") {
+				return true
+			}
+			return false
+		}
+		cal := an.Callee(call)
+		if oneOf(cal, "fmt.Fprint", "fmt.Fprintf", "fmt.Fprintln", "io.WriteString", "io.Copy") && len(cc.Args) > 0 && strings.HasSuffix(an.Strip(cc.Args[0], false).Type().String(), "http.ResponseWriter") {
+			return true
+		}
+		return cal == "net/http.Error" || strings.HasPrefix(cal, "L/rapi/rendering.Render") || strings.HasPrefix(cal, "L/rapi/rendering.EventRenderingService.Render")
+	}
+	// helpers of the handler package that answer
+	repliers := map[*ssa.Function]bool{}
+	for changed := true; changed; {
+		changed = false
+		for _, f := range repoFuncs(c) {
+			if !strings.HasPrefix(an.FuncName(f), "L/rapi/handler.") || f.Name() == "ServeHTTP" || repliers[f] {
+				continue
+			}
+			an.AllInstrs(f, func(in ssa.Instruction) {
+				if call, ok := in.(*ssa.Call); ok {
+					if sc := call.Common().StaticCallee(); direct(call) || sc != nil && repliers[sc] {
+						if !repliers[f] {
+							repliers[f] = true
+							changed = true
+						}
+					}
+				}
+			})
+		}
+	}
+	n := 0
+	for _, f := range repoFuncs(c) {
+		name := an.FuncName(f)
+		if !strings.HasPrefix(name, "L/rapi/handler.") || f.Name() != "ServeHTTP" || f.Parent() != nil {
+			continue
+		}
+		n++
+		isReply := func(in ssa.Instruction) bool {
+			call, ok := in.(*ssa.Call)
+			if !ok {
+				return false
+			}
+			if direct(call) {
+				return true
+			}
+			sc := call.Common().StaticCallee()
+			return sc != nil && repliers[sc]
+		}
+		min, _ := an.Count(f, isReply)
+		// a further answer is given only on the error edge of an earlier one
+		ord := an.NewOrder(f, func(in ssa.Instruction) uint64 {
+			if isReply(in) {
+				return 1
+			}
+			return 0
+		})
+		facts := an.NewFacts(f)
+		var replies []ssa.Instruction
+		an.AllInstrs(f, func(in ssa.Instruction) {
+			if isReply(in) {
+				replies = append(replies, in)
+			}
+		})
+		failedBefore := func(ft an.Fact) bool {
+			return an.CmpNil(ft, false, func(v ssa.Value) bool {
+				cl, _ := an.CallOf(v)
+				return cl != nil && isReply(cl)
+			})
+		}
+		var twice []string
+		pos := fpos(f)
+		for _, r := range replies {
+			if _, may := ord.Before(r); may&1 != 0 && !facts.Holds(r.Block(), failedBefore) {
+				twice = append(twice, an.Describe(r))
+				pos = an.InstrPos(r)
+			}
+		}
+		c.Check("R-COUNT", name+"/answers-once", "the handler answers the request on every path, and a second time only after the first answer failed to be written", min >= 1 && len(twice) == 0, pos, len(replies), "answer sites: %d; fewest answers on a path: %d; possibly second answers not on the error edge of the first: %v", len(replies), min, twice)
+	}
+	c.Check("R-COUNT", "L/rapi/handler/handlers", "the API handlers were enumerated", n >= 12, token.NoPos, n, "%d", n)
+}
+
+// checkFrontEndOutcomes: whatever Sandbox.Invoke reports, the invoke endpoint tells its caller: a failure is never
+// answered like a success (every error case that returns has set a status of 400 or more, the two "done failed"
+// cases and the timeout also write their body), and the success path always writes the captured body.
+func checkFrontEndOutcomes(c *report.Ctx) {
+	f := fn(c, "M/cmd/aws-lambda-rie", "InvokeHandler")
+	if f == nil {
+		return
+	}
+	facts := an.NewFacts(f)
+	inv := an.CallsTo(f, "M/cmd/aws-lambda-rie.Sandbox.Invoke")
+	if len(inv) != 1 {
+		c.Check("R-COUNT", an.FuncName(f)+"/one-invoke", "the handler hands the request to the sandbox once", false, fpos(f), len(inv), "Sandbox.Invoke calls: %d", len(inv))
+		return
+	}
+	isWriteBody := func(in ssa.Instruction) bool {
+		call, ok := in.(*ssa.Call)
+		if !ok || an.Callee(call) != "net/http.ResponseWriter.Write" {
+			return false
+		}
+		fr, k := an.AsField(an.Strip(call.Common().Args[0], true))
+		return k && fr.Struct == "M/cmd/aws-lambda-rie.ResponseWriterProxy" && fr.Field == "Body"
+	}
+	isStatus := func(in ssa.Instruction) (int64, bool) {
+		call, ok := in.(*ssa.Call)
+		if !ok || an.Callee(call) != "net/http.ResponseWriter.WriteHeader" {
+			return 0, false
+		}
+		n, k := an.ConstInt(call.Common().Args[0])
+		return n, k
+	}
+	// per error case: the entry block of the case is the one where exactly that equality first holds
+	type want struct {
+		min  int64
+		body bool
+	}
+	table := map[string]want{
+		"ErrAlreadyReserved": {400, false}, "ErrInternalServerError": {500, false}, "ErrInitDoneFailed": {500, true},
+		"ErrReserveReservationDone": {500, false}, "ErrAlreadyInvocating": {400, false}, "ErrInvokeReservationDone": {500, false},
+		"ErrInvokeDoneFailed": {500, true}, "ErrReleaseReservationDone": {500, false},
+	}
+	caseBlocks := map[string][]*ssa.BasicBlock{}
+	for _, b := range f.Blocks {
+		var errs []string
+		for _, ft := range facts.At(b) {
+			bo, ok := ft.Cond.(*ssa.BinOp)
+			if ok && bo.Op == token.EQL && ft.Val {
+				if g := an.GlobalOf(bo.Y); strings.HasPrefix(g, "L/rapidcore.Err") {
+					errs = append(errs, strings.TrimPrefix(g, "L/rapidcore."))
+				}
+			}
+		}
+		if len(errs) == 1 {
+			caseBlocks[errs[0]] = append(caseBlocks[errs[0]], b)
+		}
+	}
+	var names []string
+	for k := range table {
+		names = append(names, k)
+	}
+	sort.Strings(names)
+	for _, e := range names {
+		w := table[e]
+		blocks := caseBlocks[e]
+		// a case shared by several errors (`case A: case B: case C: body`) shows its body under the last one only;
+		// the earlier ones are empty cases and leave the switch (answered by the common tail)
+		status, body, returns := int64(0), false, false
+		for _, b := range blocks {
+			for _, in := range b.Instrs {
+				if n, ok := isStatus(in); ok {
+					status = n
+				}
+				if isWriteBody(in) {
+					body = true
+				}
+				if _, ok := in.(*ssa.Return); ok {
+					returns = true
+				}
+			}
+		}
+		ok := len(blocks) > 0 && status >= w.min && (!w.body || body) && returns
+		pos := fpos(f)
+		if len(blocks) > 0 && len(blocks[0].Instrs) > 0 {
+			pos = an.InstrPos(blocks[0].Instrs[0])
+		}
+		c.Check("R-CONST", an.FuncName(f)+"/outcome/"+e, sprintf("%s is answered with a status of at least %d%s and nothing else", e, w.min, map[bool]string{true: " and the body captured from the platform", false: ""}[w.body]), ok, pos, len(blocks), "blocks of the case: %d; status %d; writes the captured body: %v; returns: %v", len(blocks), status, body, returns)
+	}
+	// the timeout case writes the platform's timeout message
+	tmo := false
+	for _, b := range caseBlocks["ErrInvokeTimeout"] {
+		for _, in := range b.Instrs {
+			if call, ok := in.(*ssa.Call); ok && an.Callee(call) == "net/http.ResponseWriter.Write" {
+				if cl, _ := an.CallOf(an.Strip(call.Common().Args[0], true)); cl != nil && an.Callee(cl) == "fmt.Sprintf" {
+					if s, k := an.ConstString(cl.Call.Args[0]); k && strings.HasPrefix(s, "Task timed out after") {
+						tmo = true
+					}
+				}
+			}
+		}
+	}
+	c.Check("R-CONST", an.FuncName(f)+"/outcome/ErrInvokeTimeout", "a timed-out invocation is answered with the 'Task timed out after N.00 seconds' message", tmo, fpos(f), 1, "message written in the timeout case: %v", tmo)
+	// success: from the nil edge of the error test every return has written the captured body; the status is
+	// copied when the platform set one
+	var arm *ssa.BasicBlock
+	if v := inv[0].Value(); v != nil {
+		for _, r := range *v.Referrers() {
+			bo, ok := r.(*ssa.BinOp)
+			if !ok || !an.IsNil(bo.Y) && !an.IsNil(bo.X) {
+				continue
+			}
+			for _, r2 := range *bo.Referrers() {
+				if iff, ok := r2.(*ssa.If); ok {
+					if bo.Op == token.NEQ {
+						arm = iff.Block().Succs[1]
+					} else if bo.Op == token.EQL {
+						arm = iff.Block().Succs[0]
+					}
+				}
+			}
+		}
+	}
+	if arm == nil {
+		c.Unresolved("ANCHOR", an.FuncName(f)+"/success-edge", "no nil test of Sandbox.Invoke's result")
+		return
+	}
+	leak := returnReachableAvoiding(arm, isWriteBody)
+	copied := false
+	an.AllInstrs(f, func(in ssa.Instruction) {
+		call, ok := in.(*ssa.Call)
+		if !ok || an.Callee(call) != "net/http.ResponseWriter.WriteHeader" {
+			return
+		}
+		if fr, k := an.AsField(an.Strip(call.Common().Args[0], true)); k && fr.Field == "StatusCode" {
+			copied = true
+		}
+	})
+	c.Check("R-ORDER", an.FuncName(f)+"/outcome/success", "a completed invocation is always answered with the body (and status, when set) captured from the platform", !leak && copied, fpos(f), 2, "a return is reachable on the success edge without writing the captured body: %v; captured status copied: %v", leak, copied)
 }
